@@ -151,7 +151,7 @@ func c13Effective(op c13Op, R int) int {
 func TestVerifC13Ring(t *testing.T) {
 	m := vk.New(t, "C13", "seeded membership histories (20-40 ops of Add/AddWithWeight/AddWithReplicas/Remove over 2-7 nodes: strings, structs, Stringers, ints, floats, pointers to structs; weights 0..150, replicas 0..150) observed through Get over a fixed population of 2000 keys after every operation: membership/totality, determinism, minimal disruption on Remove and Add, equality with a reference ring (and with a freshly built ring) after re-weighting, weight-0 owns nothing, share ~ weight; non-trivial = at least one key changed owner")
 	defer m.Done()
-	n := vk.N(200, 12000)
+	n := vk.N(200, 5000)
 	r := m.Rand("ring")
 	var moved, ops, collisions int64
 	ratioMin, ratioMax := math.Inf(1), math.Inf(-1)
